@@ -99,6 +99,12 @@ def check(run: Run) -> None:
     run.rule("C12.R5", "a refreshed .zoq page ends its last item with a newline")
     run.rule("C12.R7", "the header a refresh keeps is the LEADING run of header lines (takewhile / break at the first other line), never a filter over the whole old page")
     run.rule("C12.R8", "every ZID the allocator writes into a page is one ZID token for the file lexer (shared with C05.R2/C07)")
+    run.rule("C12.R9", "what the index stores for a re-stamped note keeps the note's own line structure, so its rendered text compiles back to it (obligations C11.R6 adopted)")
+    from . import c11 as _c11
+
+    _sub = Run("C11", run.tier, run.repo)
+    _c11.check(_sub)
+    run.floor("adopted stamping obligations", run.adopt(_sub, ("C11.R6",), "C12.R9"), 2)
     run.rule("C12.R6", "the headline/bullet property scan skips an optional modify date and an optional ZID before looking for 'key::'")
     ts = run_file_typestate(run.repo, model, walk=False)
     g = ts.grammar
@@ -173,6 +179,24 @@ def check(run: Run) -> None:
         run.check("C12.R1", f"{m.value!r} compiles back to {m.member}", outs == {repr(m)}, "enterTodo_prefix", f"{m.value!r} -> {sorted(outs)}",
                   f"the character {m.value!r} emitted for {m.member} compiles back to {sorted(outs)}", file=FILE_C)
 
+    # ---- R3b: the body is emitted verbatim (abstract evaluation of to_string on generic multi-line bodies)
+    Iv = Interp(model)
+    for label, body in (("whitespace-only continuation line", "first\n  \n  second"), ("trailing blanks on an inner line", "first  \n  second"), ("tab and double blanks", "a\tb  c\n    * k:: v"), ("outer whitespace", "  padded  ")):
+        stv = State()
+        note = stv.alloc(HObj("obj", cls="zorg.domain.models._page.Note", fields=dict(body=body, todo_payload=None, zid=None)))
+        try:
+            resv = Iv.run_function(F_TOSTR, [note], st=stv)
+        except Exception as e:
+            run.undecided("C12.R3", "Note.to_string", f"cannot interpret: {type(e).__name__}")
+            continue
+        for v, s in resv:
+            if isinstance(v, Raised) or s.imprecise or not isinstance(v, str):
+                run.undecided("C12.R3", "Note.to_string", f"{label}: " + (f"raises {v.exc}" if isinstance(v, Raised) else "; ".join(s.imprecise[:2]) or repr(v)))
+                continue
+            want = f"- {body.strip()}\n"
+            run.check("C12.R3", f"to_string keeps the body verbatim up to outer whitespace ({label})", v == want, "Note.to_string", f"{body!r} -> {v!r}",
+                      f"a note whose body is {body!r} is rendered as {v!r}, expected {want!r}: the text form no longer compiles back to the same note "
+                      "(a continuation line that loses its indentation ends the item and orphans the rest)", file=FILE_P if "FILE_P" in globals() else "src/zorg/domain/models/_page.py")
     # ---- R4
     from ..flatten import flat_info
 
